@@ -6,51 +6,51 @@ Ltac by_run tr := exists tr; vm_compute; reflexivity.
 
 (* theorem 4: quiescent + environment finished + object alive is reachable (ready-immediately, during/after, burst,
    duplicate wake) *)
-Example ex_terminal_a : exists s, reachable [10;11;12] s /\ quiescent s /\ env_finished s /\ s.(ext) = true /\ processed s.(log) = [10;11;12].
+Example ex_terminal_a : exists s, reachable (P [10;11;12]) s /\ quiescent s /\ env_finished s /\ s.(ext) = true /\ processed s.(log) = (P [10;11;12]).
 Proof.
-  destruct (run (init [10;11;12]) tr_a) as [s|] eqn:E; [|by vm_compute in E].
+  destruct (run (init (P [10;11;12])) tr_a) as [s|] eqn:E; [|by vm_compute in E].
   exists s. split; [by exists tr_a|]. vm_compute in E. injection E as <-.
   split; [by apply all_done_quiescent|]. done.
 Qed.
-Example ex_terminal_b : exists s, reachable [10;11;12] s /\ quiescent s /\ env_finished s /\ s.(ext) = true.
+Example ex_terminal_b : exists s, reachable (P [10;11;12]) s /\ quiescent s /\ env_finished s /\ s.(ext) = true.
 Proof.
-  destruct (run (init [10;11;12]) tr_b) as [s|] eqn:E; [|by vm_compute in E].
+  destruct (run (init (P [10;11;12])) tr_b) as [s|] eqn:E; [|by vm_compute in E].
   exists s. split; [by exists tr_b|]. vm_compute in E. injection E as <-.
   split; [by apply all_done_quiescent|]. done.
 Qed.
-Example ex_terminal_c : exists s, reachable [10;11;12] s /\ quiescent s /\ env_finished s /\ s.(ext) = true.
+Example ex_terminal_c : exists s, reachable (P [10;11;12]) s /\ quiescent s /\ env_finished s /\ s.(ext) = true.
 Proof.
-  destruct (run (init [10;11;12]) tr_c) as [s|] eqn:E; [|by vm_compute in E].
+  destruct (run (init (P [10;11;12])) tr_c) as [s|] eqn:E; [|by vm_compute in E].
   exists s. split; [by exists tr_c|]. vm_compute in E. injection E as <-.
   split; [by apply all_done_quiescent|]. done.
 Qed.
-Example ex_terminal_d : exists s, reachable [10;11] s /\ quiescent s /\ env_finished s /\ s.(ext) = true.
+Example ex_terminal_d : exists s, reachable (P [10;11]) s /\ quiescent s /\ env_finished s /\ s.(ext) = true.
 Proof.
-  destruct (run (init [10;11]) tr_d) as [s|] eqn:E; [|by vm_compute in E].
+  destruct (run (init (P [10;11])) tr_d) as [s|] eqn:E; [|by vm_compute in E].
   exists s. split; [by exists tr_d|]. vm_compute in E. injection E as <-.
   split; [by apply all_done_quiescent|]. done.
 Qed.
 
 (* theorem 3: a reachable state in which ONLY clause (iv) holds (asleep with a live registered waker), and one in
    which ONLY clause (ii) holds (job 0 went Pending with a waker already consumed by a duplicate wake) *)
-Example ex_asleep : exists s, reachable [10;11] s /\ s.(pollfn) = true /\ wake_pending s = false /\ job_queued s = false
+Example ex_asleep : exists s, reachable (P [10;11]) s /\ s.(pollfn) = true /\ wake_pending s = false /\ job_queued s = false
   /\ poll_running s = false /\ waker_armed s = true.
 Proof.
-  destruct (run (init [10;11]) (take 11 tr_e)) as [s|] eqn:E; [|by vm_compute in E].
+  destruct (run (init (P [10;11])) (take 11 tr_e)) as [s|] eqn:E; [|by vm_compute in E].
   exists s. split; [by exists (take 11 tr_e)|]. vm_compute in E. injection E as <-. done.
 Qed.
-Example ex_dead_waker_registered : exists s, reachable [10;11] s /\ s.(pollfn) = true /\ wake_pending s = false
+Example ex_dead_waker_registered : exists s, reachable (P [10;11]) s /\ s.(pollfn) = true /\ wake_pending s = false
   /\ job_queued s = true /\ poll_running s = false /\ waker_armed s = false /\ s.(reg) = Some 0.
 Proof.
-  destruct (run (init [10;11]) (take 20 tr_d)) as [s|] eqn:E; [|by vm_compute in E].
+  destruct (run (init (P [10;11])) (take 20 tr_d)) as [s|] eqn:E; [|by vm_compute in E].
   exists s. split; [by exists (take 20 tr_d)|]. vm_compute in E. injection E as <-. done.
 Qed.
 
 (* theorem 5b: the object is gone, then an item event, then a run to a quiescent state *)
-Example ex_shutdown : exists s s1 s2 tr, reachable [10;11] s /\ s.(freed) = true /\ s.(pollfn) = true /\
-  step s AEnvAvail = Some s1 /\ run s1 tr = Some s2 /\ quiescent s2 /\ processed s2.(log) = [10].
+Example ex_shutdown : exists s s1 s2 tr, reachable (P [10;11]) s /\ s.(freed) = true /\ s.(pollfn) = true /\
+  step s AEnvAvail = Some s1 /\ run s1 tr = Some s2 /\ quiescent s2 /\ processed s2.(log) = (P [10]).
 Proof.
-  destruct (run (init [10;11]) (take 14 tr_e)) as [s|] eqn:E; [|by vm_compute in E].
+  destruct (run (init (P [10;11])) (take 14 tr_e)) as [s|] eqn:E; [|by vm_compute in E].
   destruct (step s AEnvAvail) as [s1|] eqn:E1; [|vm_compute in E; injection E as <-; by vm_compute in E1].
   destruct (run s1 (W 1 3 ++ [AChute])) as [s2|] eqn:E2;
     [|vm_compute in E; injection E as <-; vm_compute in E1; injection E1 as <-; by vm_compute in E2].
@@ -61,8 +61,32 @@ Qed.
 
 (* theorem 5a: a reachable state in which the pipe transiently holds a strong reference although the external
    owners are gone (inside PipeContext::poll), and the object is still alive because of it *)
-Example ex_transient_strong : exists s, reachable [10;11] s /\ s.(ext) = false /\ s.(strong) = 1 /\ nstrong s.(wakes) = 1 /\ s.(freed) = false.
+Example ex_transient_strong : exists s, reachable (P [10;11]) s /\ s.(ext) = false /\ s.(strong) = 1 /\ nstrong s.(wakes) = 1 /\ s.(freed) = false.
 Proof.
-  destruct (run (init [10;11]) (take 3 tr_f)) as [s|] eqn:E; [|by vm_compute in E].
+  destruct (run (init (P [10;11])) (take 3 tr_f)) as [s|] eqn:E; [|by vm_compute in E].
   exists s. split; [by exists (take 3 tr_f)|]. vm_compute in E. injection E as <-. done.
+Qed.
+
+(* slow items: a reachable state with an item suspended (the poll job is the open operation, other work queued behind),
+   and the terminal state of the same run; the object dropped while an item is suspended, then gone, then an event *)
+Example ex_suspended : exists s k, reachable items_h s /\ s.(running) = Some (OPoll k, JSusp (11,true)) /\ s.(opq) = [OOther 0; OPoll 1]
+  /\ excl s.(log) = Some (Some (OPoll k)).
+Proof.
+  destruct (run (init items_h) (take 19 tr_h)) as [s|] eqn:E; [|by vm_compute in E].
+  exists s, 0. split; [by exists (take 19 tr_h)|]. vm_compute in E. injection E as <-. done.
+Qed.
+Example ex_terminal_h : exists s, reachable items_h s /\ quiescent s /\ env_finished s /\ s.(ext) = true /\ processed s.(log) = items_h.
+Proof.
+  destruct (run (init items_h) tr_h) as [s|] eqn:E; [|by vm_compute in E].
+  exists s. split; [by exists tr_h|]. vm_compute in E. injection E as <-.
+  split; [by apply all_done_quiescent|]. done.
+Qed.
+Example ex_drop_while_suspended : exists s s2 tr, reachable items_i s /\ s.(running) = Some (OPoll 0, JSusp (10,true)) /\ s.(strong) = 0 /\
+  run s tr = Some s2 /\ s2.(freed) = true /\ quiescent s2 /\ s2.(pollfn) = false /\ s2.(released) = true /\ processed s2.(log) = [(10,true)].
+Proof.
+  destruct (run (init items_i) (take 10 tr_i)) as [s|] eqn:E; [|by vm_compute in E].
+  destruct (run s (drop 10 tr_i)) as [s2|] eqn:E2; [|vm_compute in E; injection E as <-; by vm_compute in E2].
+  exists s, s2, (drop 10 tr_i). split; [by exists (take 10 tr_i)|].
+  vm_compute in E; injection E as <-. vm_compute in E2; injection E2 as <-.
+  repeat (split; [done|]). split; [by apply all_done_quiescent|]. done.
 Qed.
